@@ -498,4 +498,85 @@ class Setter(Sub):
         return None
 
 
-SUBS = [Order(), Labels(), Ranges(), Setter()]
+RAISING = [
+    # (formula, expected events, expected outcome) - functions that RAISE (built-in domain errors, aggregates over an error,
+    # a raising custom function) still are function calls: one callFunction event each, after their arguments
+    ('SQRT(0-1)', [['fn', 'SQRT', [-1]]], None),
+    ('IFERROR(SQRT(0-1),A1)', [['fn', 'SQRT', [-1]], ['cell', 'A1'], ['fn', 'IFERROR', ['ANYERR', 2]]], ['v', 2]),
+    ('SUM(1/0,A1)', [['cell', 'A1'], ['fn', 'SUM', [{'$err': '#DIV/0!'}, 2]]], ['e', '#DIV/0!']),
+    ('RAISER(A1)+va', [['cell', 'A1'], ['fn', 'RAISER', [2]], ['var', 'va']], None),
+    ('IFERROR(RAISER(1),REC(2))', [['fn', 'RAISER', [1]], ['fn', 'REC', [2]], ['fn', 'IFERROR', ['ANYERR', 101]]], ['v', 101]),
+    ('LN(0)+LOG(0-1)', [['fn', 'LN', [0]], ['fn', 'LOG', [-1]]], None),
+    ('MAX(NA(),A1)', [['fn', 'NA', []], ['cell', 'A1'], ['fn', 'MAX', [{'$err': '#N/A'}, 2]]], ['e', '#N/A']),
+    ('ISERROR(ACOS(5))', [['fn', 'ACOS', [5]], ['fn', 'ISERROR', ['ANYERR']]], ['v', True]),
+    ('REC(RAISER(1),RAISER(2))', [['fn', 'RAISER', [1]], ['fn', 'RAISER', [2]], ['fn', 'REC', ['ANYERR', 'ANYERR']]], ['v', 102]),
+]
+
+
+class RaisingCalls(Sub):
+    name = 'c10.raising_calls'
+    rule = ('9 formulas whose function calls raise (domain errors of built-ins, aggregates over an error item, a raising '
+            'custom function), alone and under trapping functions: every call still raises exactly one callFunction event, '
+            'after the events of its arguments, and a listener can override the value of a raising call through the setter; '
+            'non-trivial = all')
+    min_cases = 9
+    min_nontrivial = 9
+
+    def cases(self, tier, unit):
+        for i in range(len(RAISING)):
+            yield i
+
+    def check(self, env, case):
+        text, want_events, want_out = RAISING[case]
+        env.nt()
+
+        def raiser(*a):
+            raise ValueError('raised by a custom function')
+        rec = Recorder(env, cellval=lambda c: CELLVALS.get(c.label), rangeval=lambda s, e: RANGEVAL)
+        rec.p.set_variable('va', VARS['va'])
+        rec.p.set_function('REC', lambda *a: rec_value(a))
+        rec.p.set_function('RAISER', raiser)
+        got, out = rec.run(env, text)
+        slim = []
+        for e in got:
+            if e[0] == 'cell':
+                slim.append(['cell', e[1]])
+            elif e[0] == 'range':
+                slim.append(['range', e[1][0], e[2][0]])
+            else:
+                slim.append(e)
+        ok = len(slim) == len(want_events)
+        if ok:
+            for g, w in zip(slim, want_events):
+                if g[:2] != w[:2] or len(g) != len(w):
+                    ok = False
+                    break
+                if len(w) > 2:
+                    if len(g[2]) != len(w[2]):
+                        ok = False
+                        break
+                    for ga, wa in zip(g[2], w[2]):
+                        if wa == 'ANYERR':
+                            if not (isinstance(ga, dict) and '$err' in ga):
+                                ok = False
+                        elif ga != wa:
+                            ok = False
+        if not ok:
+            return fail('%r raised events %r, expected %r (one event per call, also for calls that raise)' % (
+                text, slim, want_events), want_events, slim)
+        if want_out is not None and out != want_out:
+            return fail('%r evaluates to %r, expected %r' % (text, out, want_out), want_out, out)
+        # the setter of a raising call's event overrides its value
+        p = env.new_parser()
+        p.set_function('RAISER', raiser)
+        p.on('callFunction', lambda name, args, setter: setter(55) if name in ('RAISER', 'SQRT') else None)
+        env.evals += 2
+        for f in ('RAISER(1)+1', 'SQRT(0-1)+1'):
+            o = env.out(p.parse(f))
+            if o != ['v', 56]:
+                return fail('%s with a callFunction listener that sets 55 for the raising call gives %r, expected 56' % (f, o),
+                            ['v', 56], o)
+        return None
+
+
+SUBS = [Order(), Labels(), Ranges(), Setter(), RaisingCalls()]
